@@ -1,9 +1,54 @@
 PROPERTY = "C17"
+# Flag plumbing is proved (loop-free or closed by loop contracts, full domain);
+# ordering/matching/keyword decoding are bounded symbolic execution over every
+# list shape up to the stated length and an exhaustive keyword domain. The
+# property's core (stable order, first match wins) is therefore model checking.
 LEVEL = "model_checking"
-FUNCTIONS = ["sort_file_list"]
-TRUSTED = []
-ASSUMPTIONS = []
-EXPLANATION = ""
+FUNCTIONS = [
+    "sort_file_list", "fstree_sort_files", "decode_priority", "decode_flags", "decode_filename",
+    "pack_files", "pack_file (gensquashfs)", "write_file (tar2sqfs)",
+    "sqfs_block_processor_begin_file", "sqfs_block_processor_append", "sqfs_block_processor_end_file",
+    "get_new_block", "add_sentinel_block", "enqueue_block",
+    "process_block", "process_completed_block (data blocks)", "set_block_size (no growth)",
+    "process_completed_fragment (DONT_DEDUPLICATE, fragment block flags)",
+    "deduplicate_blocks / write_data_block (DONT_DEDUPLICATE)",
+    "sqfs_writer_init (export flag)",
+]
+TRUSTED = [
+    "strcmp(path, name) / fnmatch(pattern, path, flags) as used for matching: arbitrary answer per (line, node) pair; their argument values and flags are checked at the call (C17.match.glob_mode, C17.match.decoded). fnmatch semantics itself is POSIX's",
+    "fstree_get_path returns a string or NULL; canonicalize_name returns 0 on the (already canonical) names of the harness sort file (C18 contract)",
+    "istream_get_line delivers the lines of the sort file trimmed, one per call, then 1 (C07/C12)",
+    "split_line(line, len, \",\") on unquoted text and trim(): simple stand-ins in the harness (the real split_line reallocs its token list, which makes the stored pointers opaque to symbolic execution); parse_int is the real lib/util/src/parse_int.c",
+    "isspace/isdigit: C locale definitions instead of glibc's __ctype_b_loc table",
+    "pack_file as seen by pack_files: returns 0 or an error (its own obligations: pack_file.c); sqfs_block_processor_create_ostream hands its flags argument to begin_file unchanged (one line in ostream.c, visible); stream constructors / splice / flush may fail",
+    "thread pool submit/get_status, block writer write_data_block, compressor do_block (compress: r <= outsize and r < size or r <= 0, C03.comp.not_larger), is_memory_zero and xxh32 (arbitrary answers), sqfs_inode_make_extended / set_file_block_start, hash table and frag table as in C08",
+    "CBMC models of malloc/calloc/free",
+]
+ASSUMPTIONS = [
+    "file lists <= 5 (quick) / 7 (thorough) for the sort, <= 3 for matching, <= 4 for pack_files; longer lists are not covered",
+    "sort_match uses ONE concrete 5-line sort file (comment, glob+flags, quoted plain name with an escaped quote, glob_no_path with blanks in the list, extreme priority) - every matching outcome of these lines over the nodes is explored, other texts are not; flags_decode covers all keyword subsets in fixed relative orders",
+    "fault injection of get_line/get_path is off in sort_match (symbolic early exits defeat constant propagation of the line text); C17.match.fail_stop is therefore only checked on the fault-free path there. Fail-stop of these paths is C13's",
+    "block size 4096 (append: 256 in the quick tier, 4096 in the thorough tier); block index < 8 in bp_pcb_data (no inode growth)",
+    "the layout on disk follows the call order because the block writer only appends (C14) and blocks are written in submission order (C02); not re-proved here",
+    "the export table contents (entry for inode n at slot n-1) are C03.export.table; here only the switch reaches the directory writer",
+    "options parsing (-T, -e, -S), glob semantics of fnmatch, the image as decoded by an independent parser: outside",
+    "node flags handed to pack_file are user-settable bits (what decode_flags can produce: C17.flags.decode)",
+]
+EXPLANATION = (
+    "Order: sort_file_list yields a stable, ordered permutation (sort_stable); fstree_sort_files assigns each file "
+    "the priority and flags of its first matching line and nothing else, visits every unmatched file per line, "
+    "passes FNM_PATHNAME exactly for `glob` (sort_match) and decodes keyword lists to exactly their bits "
+    "(flags_decode); pack_files walks the sorted list in order (pack_order). Plumbing: pack_file / write_file pass "
+    "node flags | (DONT_FRAGMENT iff -T and size > block size) (pack_file, write_file); begin_file accepts user "
+    "bits only and stores them, append stamps them on every block, end_file turns DONT_FRAGMENT into a LAST_BLOCK "
+    "data block instead of a fragment (bp_frontend); process_block never compresses DONT_COMPRESS blocks and never "
+    "flags IGNORE_SPARSE blocks sparse (bp_process_block); process_completed_block records the uncompressed bit / "
+    "zero word and hands the flags to the writer (bp_pcb_data); DONT_DEDUPLICATE skips fragment lookup and block "
+    "deduplication (frag_pcf, blk_wdb, blk_dedup from C08); fragment blocks inherit only DONT_COMPRESS (frag_pcf); "
+    "--exportable reaches the directory writer (init_compare).")
+
+_BE_FP = {"key_equals_function": "stub_chunk_equals", "dequeue": "stub_pool_dequeue",
+          "get_status": "stub_pool_get_status", "write_data_block": "stub_write_data_block"}
 
 HARNESSES = [
     dict(name="sort_stable", file="sort_stable.c", label="bounded(files<=5)", timeout=900,
@@ -13,7 +58,8 @@ HARNESSES = [
                      label="bounded(files<=5)" if n <= 5 else "bounded(files<=7)") for n in range(8)]),
     dict(name="sort_match", file="sort_match.c", label="bounded(files<=3, fixed 5-line sort file)", timeout=900,
          fp={"get_filename": "stub_get_filename"},
-         cases=[dict(id="n%d" % n, defines={"N": n}, unwind=50, tier="quick") for n in (1, 2, 3)]),
+         cases=[dict(id="n%d" % n, defines={"N": n}, unwind=50, weight=9,
+                     tier="quick" if n <= 2 else "thorough") for n in (1, 2, 3)]),
     dict(name="flags_decode", file="flags_decode.c",
          label="bounded(all 16 keyword subsets x 5 glob variants, 2 orders)",
          timeout=600, object_bits=12, fp={"get_filename": "stub_get_filename"},
@@ -26,16 +72,16 @@ HARNESSES = [
                      label="bounded(all 16 keyword subsets x 5 glob variants, 4 orders)")
                 for g in range(5) for lo in (0, 4, 8, 12)] +
                [dict(id="malformed", defines={"PART": 10}, unwind=170, tier="quick")]),
-    # loops=["pack_file"] / ["write_file"] (rows exist in contracts/loops/C17.tbl)
-    # once annotate.py places `do` clauses after the `do` keyword; until then
-    # the copy loop is unwound against a splice contract that ends the input
-    # after SPLICE_MAX transfers
-    dict(name="pack_file", file="pack_file.c", label="bounded(splice calls<=3)", timeout=120,
+    dict(name="pack_file", file="pack_file.c", label="proved", timeout=300, loops=["pack_file"], mode="dfcc",
          fp={"flush": "stub_flush", "destroy": "stub_destroy"},
-         cases=[dict(id="all", defines={"SPLICE_MAX": 3}, unwind=4, tier="quick")]),
-    dict(name="write_file", file="write_file.c", label="bounded(splice calls<=3)", timeout=120,
+         cases=[dict(id="all", tier="quick")]),
+    dict(name="write_file", file="write_file.c", label="proved", timeout=300, loops=["write_file"], mode="dfcc",
          fp={"flush": "stub_flush", "destroy": "stub_destroy", "open_file_ro": "stub_open_file_ro"},
-         cases=[dict(id="all", defines={"SPLICE_MAX": 3}, unwind=4, tier="quick")]),
+         cases=[dict(id="all", tier="quick")]),
+    dict(name="pack_order", file="pack_order.c", label="bounded(files<=4)", timeout=120,
+         pre_instrument_flags=["--replace-calls", "pack_file:stub_pack_file"],
+         fp={"flush": "stub_flush", "destroy": "stub_destroy"},
+         cases=[dict(id="n%d" % n, defines={"N": n}, unwind=6, tier="quick") for n in (0, 1, 2, 4)]),
     dict(name="bp_process_block", file="bp_process_block.c", label="bounded(block size 4096)", timeout=120,
          fp={"process_block:do_block": "stub_compress", "do_block": "stub_do_block",
              "read_at": "stub_read_at", "*": "stub_unreachable_destroy"},
@@ -54,4 +100,31 @@ HARNESSES = [
                      label="bounded(block size 256)"),
                 dict(id="append_cur1", defines={"OP": 2, "HAVE_CUR": 1, "BS": 4096}, tier="thorough", timeout=900),
                 dict(id="append_cur0", defines={"OP": 2, "HAVE_CUR": 0, "BS": 4096}, tier="thorough", timeout=900)]),
+    dict(name="bp_pcb_data", file="bp_pcb_data.c", label="bounded(block size 4096, block index<8)", timeout=120,
+         fp={"key_equals_function": "stub_chunk_equals", "dequeue": "stub_pool_dequeue",
+             "get_status": "stub_pool_get_status", "write_data_block": "stub_write_data_block"},
+         unwind=9, nochecks=["--conversion-check"],
+         cases=[dict(id="bs4096", defines={"BS": 4096}, tier="quick")]),
+    # ---- DONT_DEDUPLICATE / fragment block flags / export switch: harness files shared with C08 ----
+    dict(name="dedup_frag", file="../C08/frag_pcf.c",
+         label="bounded(colliding stored chunks<=2, block size 4096)", timeout=300,
+         fp=_BE_FP, malloc_fail=True, unwind=3,
+         must_have=["C17.bp.dont_dedup", "C17.bp.frag_block_inherits"],
+         cases=[dict(id="fb%d_ino1" % fb, defines={"HAVE_FB": fb, "HAVE_INODE": 1, "BS": 4096}, tier="quick")
+                for fb in (0, 1)]),
+    dict(name="dedup_wdb", file="../C08/blk_wdb.c", label="bounded(blocks<=3)", timeout=300,
+         fp={"truncate": "stub_truncate", "destroy": "stub_unreachable_destroy",
+             "get_size": "stub_get_size", "write_at": "stub_write_at"},
+         must_have=["C17.bp.dont_dedup"],
+         cases=[dict(id="u%df%d" % (u, f), defines={"NB": 3, "USED": u, "FS": f}, unwind=4, tier="quick")
+                for u, f in ((2, 1), (2, 2), (1, 0))]),
+    dict(name="dedup_blocks", file="../C08/blk_dedup.c", label="bounded(blocks<=4)", timeout=600,
+         fp={"truncate": "stub_truncate", "destroy": "stub_unreachable_destroy",
+             "get_size": "stub_unreachable_get_size", "write_at": "stub_unreachable_write_at"},
+         must_have=["C08.blk.dont_dedup_own"],
+         cases=[dict(id="u4f2", defines={"NB": 4, "USED": 4, "FS": 2}, unwind=5, tier="quick")]),
+    dict(name="export_flag", file="../C08/init_compare.c", label="proved", timeout=300,
+         fp={"write_options": "stub_write_options", "destroy": "stub_destroy"},
+         must_have=["C17.export.flag"],
+         cases=[dict(id="all", tier="quick")]),
 ]
